@@ -99,6 +99,18 @@ theorem c13_batching_independent (s : Store ν) (a b : List (Nat × Upd ν)) :
       ((applyBatch (applyBatch s a).1 b).1, (applyBatch s a).2 ++ (applyBatch (applyBatch s a).1 b).2) :=
   applyBatch_append s a b
 
+/-- **catch-up by snapshot = catch-up by log**: a replica that held anything (`stale`), installs the
+snapshot a peer took after the entries `a` and applies `b` holds the store - and answers `b` with
+the results - of a replica that applied `a ++ b`; in particular records deleted in `a` do not come
+back (C13-c / C14-f regression: the `msnap` lines of the `meta` run tie `restoreSnapshot`) -/
+theorem c13_snapshot_catchup (s stale : Store ν) (a b : List (Nat × Upd ν)) :
+    applyBatch (restoreSnapshot stale (applyBatch s a).1) b =
+      ((applyBatch s (a ++ b)).1, (applyBatch s (a ++ b)).2.drop (applyBatch s a).2.length) := by
+  rw [applyBatch_append]; simp [restoreSnapshot]
+
+/-- … so what the receiver held before is irrelevant -/
+theorem c13_snapshot_forgets (old old' snap : Store ν) : restoreSnapshot old snap = restoreSnapshot old' snap := rfl
+
 /-- non-vacuity and regression: two sets with version 0 on one key — the second is a mismatch
 reporting the pair stamped by the first; a set with the current version succeeds; a set on a key
 that was deleted and re-created cannot succeed with the old version (no ABA: versions are indices) -/
